@@ -166,6 +166,101 @@ where
 }
 
 
+// ------------------------------------------------------------------------------------ typed pairs
+/// Two NATIVE typed values (the wrappers that switch the deserializer into a special mode: symbol, symbol
+/// reference, timestamp, uuid, decimals, array, lazy value ...) written as a pair and read back as the same pair
+/// of types through both readers: whatever mode the first one sets must be gone when the second is read.
+fn typed_pair_cases() -> Vec<(String, Vec<(String, String)>)> {
+    use serde_amqp::lazy::LazyValue;
+    use serde_amqp::primitives::{Array, Dec128, Dec32, Dec64, Symbol, SymbolRef, Timestamp, Uuid};
+    use serde_bytes::ByteBuf;
+    let mut out: Vec<(String, Vec<(String, String)>)> = vec![];
+    fn one<A, B>(label: String, a: A, b: B) -> (String, Vec<(String, String)>)
+    where
+        A: Serialize + for<'de> serde::Deserialize<'de> + PartialEq + Debug + Clone,
+        B: Serialize + for<'de> serde::Deserialize<'de> + PartialEq + Debug + Clone,
+    {
+        let mut f = vec![];
+        let pair = (a.clone(), b.clone());
+        let bytes = match catch(|| serde_amqp::to_vec(&pair)) {
+            Ok(Ok(x)) => x,
+            Ok(Err(e)) => return (label, vec![("typed-pair-encode-error".into(), format!("to_vec failed: {e}"))]),
+            Err(p) => return (label, vec![("panic typed-pair encode".into(), p)]),
+        };
+        for io in [false, true] {
+            let how = if io { "io reader" } else { "slice reader" };
+            let r = catch(|| if io { serde_amqp::from_reader::<(A, B)>(&bytes[..]) } else { serde_amqp::from_slice::<(A, B)>(&bytes) });
+            match r {
+                Err(p) => f.push(("panic typed-pair decode".into(), format!("{how}: decoding {} panicked: {p}", hex(&bytes)))),
+                Ok(Err(e)) => f.push(("typed-pair-decode-error".into(), format!("{how}: the library's own encoding {} of the pair is refused: {e}", hex(&bytes)))),
+                Ok(Ok(got)) => {
+                    if got != pair {
+                        f.push(("typed-pair-second-value-disturbed".into(), format!("{how}: {} decodes to {} instead of {:?}", hex(&bytes), trunc(&format!("{:?}", got)), pair)));
+                    }
+                }
+            }
+        }
+        (label, f)
+    }
+    macro_rules! seconds {
+        ($name:expr, $a:expr) => {{
+            out.push(one(format!("({}, binary)", $name), $a, ByteBuf::from(vec![1u8, 2, 3])));
+            out.push(one(format!("({}, string)", $name), $a, String::from("text")));
+            out.push(one(format!("({}, long)", $name), $a, -5i64));
+            out.push(one(format!("({}, symbol)", $name), $a, Symbol::from("sym")));
+            out.push(one(format!("({}, timestamp)", $name), $a, Timestamp::from_milliseconds(7)));
+            out.push(one(format!("({}, list of ubyte)", $name), $a, vec![1u8, 2]));
+            out.push(one(format!("({}, array of ubyte)", $name), $a, Array::from(vec![1u8, 2])));
+            out.push(one(format!("({}, uuid)", $name), $a, Uuid::from([9u8; 16])));
+            out.push(one(format!("({}, value)", $name), $a, Value::Binary(ByteBuf::from(vec![4u8]))));
+        }};
+    }
+    seconds!("symbol", Symbol::from("a"));
+    seconds!("timestamp", Timestamp::from_milliseconds(1));
+    seconds!("uuid", Uuid::from([1u8; 16]));
+    seconds!("decimal32", Dec32::from([1u8; 4]));
+    seconds!("decimal64", Dec64::from([1u8; 8]));
+    seconds!("decimal128", Dec128::from([1u8; 16]));
+    seconds!("array of ubyte", Array::from(vec![3u8]));
+    seconds!("binary", ByteBuf::from(vec![0u8]));
+    seconds!("char", 'x');
+    // a symbol reference borrows from the input: slice reader only
+    {
+        let bytes = serde_amqp::to_vec(&(Symbol::from("a"), ByteBuf::from(vec![1u8]))).unwrap_or_default();
+        let r = catch(|| serde_amqp::from_slice::<(SymbolRef, ByteBuf)>(&bytes).map(|(s, b)| (s.0.to_string(), b)));
+        let mut f = vec![];
+        match r {
+            Err(p) => f.push(("panic typed-pair decode".into(), format!("slice reader: decoding {} as (SymbolRef, binary) panicked: {p}", hex(&bytes)))),
+            Ok(Err(e)) => f.push(("typed-pair-decode-error".into(), format!("slice reader: {} as (SymbolRef, binary) is refused: {e}", hex(&bytes)))),
+            Ok(Ok((s, b))) => {
+                if s != "a" || b != ByteBuf::from(vec![1u8]) {
+                    f.push(("typed-pair-second-value-disturbed".into(), format!("slice reader: {} as (SymbolRef, binary) gives ({s:?}, {b:?})", hex(&bytes))));
+                }
+            }
+        }
+        out.push(("(symbol reference, binary)".into(), f));
+    }
+    // a lazy value first
+    {
+        let bytes = serde_amqp::to_vec(&(Symbol::from("a"), ByteBuf::from(vec![1u8]))).unwrap_or_default();
+        for io in [false, true] {
+            let r = catch(|| if io { serde_amqp::from_reader::<(LazyValue, ByteBuf)>(&bytes[..]) } else { serde_amqp::from_slice::<(LazyValue, ByteBuf)>(&bytes) });
+            let mut f = vec![];
+            match r {
+                Err(p) => f.push(("panic typed-pair decode".into(), format!("decoding {} as (LazyValue, binary) panicked: {p}", hex(&bytes)))),
+                Ok(Err(e)) => f.push(("typed-pair-decode-error".into(), format!("{} as (LazyValue, binary) is refused: {e}", hex(&bytes)))),
+                Ok(Ok((_, b))) => {
+                    if b != ByteBuf::from(vec![1u8]) {
+                        f.push(("typed-pair-second-value-disturbed".into(), format!("{} as (LazyValue, binary): the binary reads {b:?}", hex(&bytes))));
+                    }
+                }
+            }
+            out.push((format!("(lazy value, binary) {}", if io { "io" } else { "slice" }), f));
+        }
+    }
+    out
+}
+
 // ------------------------------------------------------------------------------------ two values, one deserializer
 /// `a` then `b` encoded back to back and decoded with ONE deserializer (as every composite, frame and message
 /// decoder does): reading `a` - as a Value or as a LazyValue - must leave `b` untouched, through both readers.
@@ -666,6 +761,13 @@ pub fn run(ctx: &Ctx) -> Outcome {
         }
     }
     out.set("sequence_pairs", pairs.len() as u64);
+    let tp = typed_pair_cases();
+    out.set("typed_pairs", tp.len() as u64);
+    for (label, fs) in tp {
+        for (sig, d) in fs {
+            out.violation(sig, format!("{label}: {d}"), json!({"kind": "typed-pair", "label": label}));
+        }
+    }
     let tv = TypedC20 {
         quick: ctx.quick(),
         cnt: Cnt { reads: AtomicU64::new(0) },
